@@ -100,11 +100,30 @@ def _layouts(writes):
 
     class Mixed(Mixin, Base):
         pass
-    return dict(base=Base, limsub=LimitedSub, pairsub=PairSub, flat=Flat, flatsub=FlatSub, mixed=Mixed)
+
+    class MinMaxMixin:
+        target_min = Limit()
+        target_max = Limit()
+
+    class PairMix(Base, Mixin):
+        """the hook comes first in the MRO, the limits from a mixin behind it"""
+    return dict(base=Base, limsub=LimitedSub, pairsub=PairSub, flat=Flat, flatsub=FlatSub, mixed=Mixed, pairmix=PairMix)
+
+
+def _hook_refuses(specifier, data):
+    """what the check_target hooks of the layouts refuse: Base (and its subclasses) non-multiples of 0.5, FlatSub the value 7"""
+    mod, _, par = specifier.partition(':')
+    if par != 'target' or not isinstance(data, (int, float)):
+        return False
+    if mod in ('base', 'limsub', 'pairsub', 'mixed', 'pairmix'):
+        return bool((data * 2) % 1)
+    if mod == 'flatsub':
+        return data == 7
+    return False
 
 
 def gen_change(tier, rng):
-    """change requests over the wire on 6 class layouts (limits / hooks declared in base, subclass, mixin) x limits over a grid
+    """change requests over the wire on 7 class layouts (limits / hooks declared in base, subclass, mixin) x limits over a grid
     x target values inside, on and outside the limits; also writes to the limit parameters themselves (incl. inverted pairs)"""
     from bounded import nodelib
     writes = []
@@ -114,7 +133,7 @@ def gen_change(tier, rng):
     conn = nodelib.Conn()
     d.add_connection(conn)
     grid = [-5.0, 0.0, 0.5, 1.0, 5.0] if tier == 'quick' else [-5.0, -1.0, 0.0, 0.5, 1.0, 2.0, 5.0, 7.0]
-    values = [-6.0, -5.0, -0.5, 0.0, 0.25, 0.5, 1.0, 4.5, 5.0, 5.5, 7.0, 50.0]
+    values = [-6.0, -5.0, -0.5, -0.25, 0.0, 0.25, 0.5, 0.75, 1.0, 4.5, 4.75, 5.0, 5.5, 7.0, 50.0]
     for name, cls in lay.items():
         m = srv.secnode.modules[name]
         for lo, hi in itertools.product(grid, repeat=2):
@@ -128,11 +147,11 @@ def gen_change(tier, rng):
                 continue
             for v in values:
                 yield dict(label=f'{name} limits=({lo},{hi}) change {name}:target {v}', self=d,
-                           args={'conn': conn, 'specifier': f'{name}:target', 'data': v}, ghosts={'driver_writes': writes})
+                           args={'conn': conn, 'specifier': f'{name}:target', 'data': v}, ghosts={'driver_writes': writes, 'HOOK_REFUSES': _hook_refuses})
         if hasattr(m, 'target_limits'):
             for pair in ([1, 5], [5, 1], [0, 0], [-200, 0]):
                 yield dict(label=f'{name} change {name}:target_limits {pair}', self=d,
-                           args={'conn': conn, 'specifier': f'{name}:target_limits', 'data': pair}, ghosts={'driver_writes': writes})
+                           args={'conn': conn, 'specifier': f'{name}:target_limits', 'data': pair}, ghosts={'driver_writes': writes, 'HOOK_REFUSES': _hook_refuses})
 
 
 GENS = {'Module.checkLimits': gen_checkLimits, 'Dispatcher.handle_change': gen_change}
